@@ -1132,11 +1132,44 @@ SHARED_ATTR_POOL = ["kp", "intake_kp", "shooter_kp", "drive_kp", "preset", "Zlim
 NAME_POOL = ["a", "ab", "a_b", "b", "Mode A", "robot", "components", "x"]
 
 
+SM_STATE_POOL = ["idle", "eject", "spin_up", "fire", "jam"]
+
+
+def gen_sm(r, tag):
+    """the states of a StateMachine component: 1-3 states, the first one `first=True`, timed ones with a
+    float (sometimes int) duration, some with a docstring."""
+    names = r.sample(SM_STATE_POOL, r.choice([1, 2, 2, 3]))
+    states = []
+    for j, nm in enumerate(names):
+        dur = None
+        if r.random() < (0.25 if j == 0 else 0.6):
+            dur = r.choice([["float", 128], ["float", 32], ["float", r.randrange(1, 640)], ["int", 2]])
+        states.append({"name": "%s_%s" % (nm, tag), "first": j == 0, "dur": dur,
+                       "doc": r.choice([None, None, "does %s" % nm])})
+    return {"states": states}
+
+
+def gen_assigned(r, attr, kind):
+    """a tunable assigned to a class attribute AFTER the class statement (`Cls.attr = tunable(d)`): no
+    __set_name__ call, so no hint; the default must be non-empty for the type to be known."""
+    d = gen_decl(r, attr, kind)
+    d["hint"], d["form"], d["q"] = None, 0, 0
+    d["default"] = gen_value(r, tuple(d["kind"]), allow_empty=False, pyform=True, as_default=True)
+    while d["default"] in (["str", ""], ["bytes", []]):   # ('' and b'' are empty sequences too)
+        d["default"] = gen_value(r, tuple(d["kind"]), allow_empty=False, pyform=True, as_default=True)
+    return d
+
+
 def gen_case(r, tag):
     """one history; `tag` makes every topic name of the case unique in the NT instance."""
     ncls = r.choice([1, 1, 2, 2, 3])
     classes, split, srcs, tkinds, hiers = [], [], [], [], []
     used = []
+    # the environment (Model section 13): the clock, client timestamps, classes that change
+    paused = r.random() < 0.4                       # the history runs under the paused (stepped) HAL clock
+    stamping = r.random() < 0.5                     # clients stamp (some of) their updates themselves
+    mutating = r.random() < 0.3                     # class attributes are assigned between setups
+    with_sm = r.random() < 0.25                     # one class is a magicbot StateMachine
     for c in range(ncls):
         srcs.append(r.choice([0, 1, 2, 2]))
         tkinds.append(r.choice([None, None, None, None, "len", "len", "bool", "list"]))
@@ -1149,7 +1182,7 @@ def gen_case(r, tag):
         classes.append(ds)
     # SHARED tunable objects: one object (a module-level preset) bound by two or more classes of the
     # history, by each under a name of its own (sometimes the same name), at most once per class
-    if ncls >= 2 and r.random() < 0.6:
+    if ncls >= 2 and r.random() < 0.6 and not (mutating or with_sm):
         for obj in range(r.choice([1, 1, 2])):
             proto = gen_decl(r, "?")
             annotated = proto["hint"] is not None and r.random() < 0.6
@@ -1166,8 +1199,23 @@ def gen_case(r, tag):
                     d["form"] = r.randrange(1, 5) if annotated else 0
                     d["q"] = r.choice([0, 0, 0, 1, 2]) if annotated else 0
                 classes[c].append(d)
+    if any("obj" in d for ds in classes for d in ds):
+        # (histories with shared tunable objects go through Model.prog_class; they keep the plain environment)
+        paused = stamping = False
+    sms = [None] * ncls
+    smc = r.randrange(ncls) if with_sm else None
     for c in range(ncls):
         ds = classes[c]
+        if c == smc:
+            # class Cls(StateMachine): the library adds current_state, <state>_duration, state_names, state_descriptions
+            sms[c] = gen_sm(r, tag)
+            tkinds[c] = None
+            srcs[c] = r.choice([1, 2])
+            ds.extend(sm_decls(sms[c]))
+            ds.sort(key=lambda d: d["attr"])
+            hiers.append(None)
+            split.append(0)
+            continue
         ds.sort(key=lambda d: d["attr"])            # dir(cls) order
         if r.random() < 0.4:
             hiers.append(gen_hier(r, ds, tag))
@@ -1177,8 +1225,13 @@ def gen_case(r, tag):
             split.append(r.randrange(len(ds)) if r.random() < 0.3 else 0)
     ninst = r.choice([1, 2, 2, 3])
     insts = [r.randrange(ncls) for _ in range(ninst)]
+    if smc is not None and r.random() < 0.8:
+        insts[0] = smc
     if ninst >= 2 and r.random() < 0.6:
         insts[1] = insts[0]                         # two instances of one class
+    # instances constructed one after another, each right before it is first used (a fresh component per
+    # unit test; absent: all of them up front, the way MagicRobot does it)
+    lazy = ninst >= 2 and r.random() < (0.7 if smc is not None else 0.4) and not any("obj" in d for ds in classes for d in ds)
 
     def gen_owner():
         k = r.random()
@@ -1200,6 +1253,8 @@ def gen_case(r, tag):
         # (a type conflict between two classes is ntcore's business, not the model's)
         while True:
             o = gen_owner()
+            if sms[insts[i]] is not None and tag not in "%s/%s" % o:
+                continue                            # (current_state .. carry no tag: the owner path must)
             if owner_cls.setdefault(o, insts[i]) == insts[i]:
                 return o
 
@@ -1210,6 +1265,44 @@ def gen_case(r, tag):
     bound = {}                                      # i -> (prefix, cname)
     known_keys = []                                 # (key, ts, kind)
     can_be_falsy = [i for i in range(ninst) if tkinds[insts[i]] is not None]
+    # the classes as they are NOW (class attributes are assigned while the history runs)
+    cur = [{d["attr"]: d for d in classes[c]} for c in range(ncls)]
+    ver = [dict() for _ in range(ncls)]             # attr -> how often the class attribute was assigned
+    bver = {}                                       # i -> {attr: ver at its last setup}
+    made = set() if lazy else set(range(ninst))
+    nadded = [0]
+
+    def need(i):
+        """instance i is about to be used: construct it first"""
+        if i not in made:
+            made.add(i)
+            ops.append(["new", i])
+            if sms[insts[i]] is not None:
+                for a in ("state_names", "state_descriptions"):
+                    ver[insts[i]][a] = ver[insts[i]].get(a, 0) + 1
+
+    if not lazy:
+        for i in range(ninst):
+            if sms[insts[i]] is not None:
+                for a in ("state_names", "state_descriptions"):
+                    ver[insts[i]][a] = ver[insts[i]].get(a, 0) + 1
+
+    def do_setup(i, owner):
+        need(i)
+        ops.append(["setup", i, owner[0], owner[1]])
+        bound[i] = owner
+        bver[i] = {a: ver[insts[i]].get(a, 0) for a in cur[insts[i]]}
+
+    def pick_decl(i):
+        """a tunable of instance i's class; mostly one the instance is bound to as the class has it now"""
+        ds = list(cur[insts[i]].values()) or classes[insts[i]]
+        livek = [d for d in ds if i in bver and bver[i].get(d["attr"]) == ver[insts[i]].get(d["attr"], 0)]
+        return r.choice(livek if (livek and r.random() < 0.9) else ds)
+
+    def gen_stamp():
+        if not stamping or r.random() < 0.4:
+            return []
+        return [r.choice(["same", "same", "same", "now", "now", "older"])]
 
     def gen_truth(i):
         # falsy is where an owner differs from an ordinary object: it is the common state
@@ -1220,7 +1313,7 @@ def gen_case(r, tag):
 
     def keys_of(i, owner):
         out = []
-        for d in classes[insts[i]]:
+        for d in cur[insts[i]].values():
             if d["attr"].startswith("_"):
                 continue
             ts = (ARRAY_TS if d["kind"][1] else SCALAR_TS)[d["kind"][0]]
@@ -1248,10 +1341,11 @@ def gen_case(r, tag):
     for i in range(ninst):
         if r.random() < 0.2:
             d = r.choice(classes[insts[i]])
+            need(i)
             ops.append(["pyr", i, d["attr"]])
         for key, ts, kind in keys_of(i, owners[i]):
             if r.random() < 0.35:
-                ops.append(["ntw", key, ts, gen_value(r, kind)])
+                ops.append(["ntw", key, ts, gen_value(r, kind)] + gen_stamp())
                 known_keys.append((key, ts, kind))
     pending = list(range(ninst))
     r.shuffle(pending)
@@ -1259,23 +1353,65 @@ def gen_case(r, tag):
     while nops > 0 or pending:
         nops -= 1
         if can_be_falsy and r.random() < 0.12:
-            ops.append(gen_truth(r.choice(can_be_falsy)))
+            i = r.choice(can_be_falsy)
+            need(i)
+            ops.append(gen_truth(i))
+            continue
+        if paused and r.random() < 0.1:
+            ops.append(["tick", r.choice([20000, 20000, 5000, 1, 1, 0])])
             continue
         if pending and (not bound or r.random() < 0.35):
             i = pending.pop()
-            ops.append(["setup", i, owners[i][0], owners[i][1]])
-            bound[i] = owners[i]
+            do_setup(i, owners[i])
             known_keys += keys_of(i, owners[i])
             ghost_keys += ghost_keys_of(i, owners[i])
             continue
         if not bound:
+            continue
+        if mutating and r.random() < 0.07:
+            # `Cls.attr = tunable(..)` between two setups: replace a tunable of the class (same topic type: the
+            # instances that are re-bound keep their topics), add one, or put a plain value in its place --
+            # mostly followed by the setup of an instance of that class
+            c = insts[r.choice(list(bound))]
+            # (pyntcore: a struct-array entry hands back its DEFAULT while the stored array is empty, see
+            # notes_c09.md -- a struct-array tunable whose default is empty keeps that default)
+            pub = [d for d in cur[c].values() if not d["attr"].startswith("_") and d.get("sm") != "names"
+                   and not (d["kind"][1] and d["kind"][0] in ("T2", "T3") and not d["default"][1])]
+            how = r.random()
+            if how < 0.65 and pub:
+                old = r.choice(pub)
+                m = gen_assigned(r, old["attr"], tuple(old["kind"]))
+                if r.random() < 0.7:
+                    m["subtable"] = old["subtable"]
+            elif how < 0.9 or not pub:
+                nadded[0] += 1
+                m = gen_assigned(r, "added%d_%s" % (nadded[0], tag), None)
+            else:
+                m = {"attr": r.choice(pub)["attr"], "plain": r.choice(PLAIN_POOL)}
+            ops.append(["clsset", c, m])
+            ver[c][m["attr"]] = ver[c].get(m["attr"], 0) + 1
+            if is_plain(m):
+                cur[c].pop(m["attr"], None)
+            else:
+                cur[c][m["attr"]] = m
+            if r.random() < 0.8:
+                cands = [i for i in range(ninst) if insts[i] == c]
+                i = r.choice(cands)
+                if i in pending:
+                    pending.remove(i)
+                elif r.random() < 0.6:
+                    owners[i] = fresh_owner(i)      # (else: bound again under the name it has)
+                do_setup(i, owners[i])
+                known_keys += keys_of(i, owners[i])
+                ghost_keys += ghost_keys_of(i, owners[i])
             continue
         if ghost_keys and r.random() < 0.05:
             ops.append(["ntr", r.choice(ghost_keys)])
             continue
         k = r.random()
         i = r.choice(list(bound) if r.random() < 0.95 else list(range(ninst)))
-        d = r.choice(classes[insts[i]])
+        need(i)
+        d = pick_decl(i)
         if k < 0.33:
             if d["kind"][0] == "float" and r.random() < 0.12:
                 ops.append(["pyw", i, d["attr"], gen_int_literal(r, tuple(d["kind"]))])   # an int on a double topic
@@ -1289,34 +1425,45 @@ def gen_case(r, tag):
             ops.append(["pyr", i, d["attr"]])
         elif k < 0.78 and known_keys:
             key, ts, kind = r.choice(known_keys)
-            ops.append(["ntw", key, ts, gen_value(r, kind)])
+            ops.append(["ntw", key, ts, gen_value(r, kind)] + gen_stamp())
         elif k < 0.95 and known_keys:
             key, ts, kind = r.choice(known_keys)
+            if paused and r.random() < 0.2:
+                ops.append(["ntt", key])            # the topic's timestamp (comparable under the paused clock)
+                continue
             if r.random() < 0.1:                    # a near miss: nothing may live there
                 key = r.choice([key + "/" + (d["subtable"] or "cfg"), key.rsplit("/", 1)[0], key + "_"])
             ops.append(["ntr", key])
         elif i in bound:
             owners[i] = fresh_owner(i)              # re-bind under another name
-            ops.append(["setup", i, owners[i][0], owners[i][1]])
-            bound[i] = owners[i]
+            do_setup(i, owners[i])
             known_keys += keys_of(i, owners[i])
             ghost_keys += ghost_keys_of(i, owners[i])
     # closing reads: every attribute of every instance, every known key
     for i in range(ninst):
+        need(i)
         if i in can_be_falsy and r.random() < 0.5:
             ops.append(gen_truth(i))
-        for d in classes[insts[i]]:
+        for d in list(cur[insts[i]].values()):
             if r.random() < 0.5:
                 ops.append(["pyr", i, d["attr"]])
     for key, ts, kind in known_keys[:8]:
         if r.random() < 0.5:
             ops.append(["ntr", key])
+        elif paused and r.random() < 0.3:
+            ops.append(["ntt", key])
     for key in ghost_keys[:6]:
         if r.random() < 0.5:
             ops.append(["ntr", key])
     case = {"tag": tag, "classes": classes, "split": split, "src": srcs, "tkind": tkinds, "insts": insts, "ops": ops}
     if any(h is not None for h in hiers):
         case["hier"] = hiers
+    if paused:
+        case["clock"] = "paused"
+    if lazy:
+        case["lazy"] = True
+    if smc is not None:
+        case["sm"] = sms
     return case
 
 
@@ -1514,9 +1661,7 @@ def exec_case_clocked(mt, case, paused):
                 m = op[2]
                 if is_plain(m):
                     setattr(clss[op[1]], m["attr"], to_py(m["plain"]))
-                elif m.get("hint") is not None:
-                    setattr(clss[op[1]], m["attr"], mt.tunable[hint_to_py(m["hint"], m.get("flavor", 0))](to_py(m["default"]), **tunable_kwargs(m)))
-                else:
+                else:                                # (no __set_name__ call: the type comes from the default)
                     setattr(clss[op[1]], m["attr"], mt.tunable(to_py(m["default"]), **tunable_kwargs(m)))
                 obs.append(["done"])
                 continue
@@ -1603,6 +1748,8 @@ def obs_to_coq(o):
         return "OSelf"
     if o[0] == "done":
         return "ODone"
+    if o[0] == "stamp":
+        return "(OStamp %s)" % coq_Z(o[1])
     if o[0] == "nt":
         if o[1] is None:
             return "(ONt None)"
@@ -1673,6 +1820,99 @@ def program_to_coq(case):
     return "(mkprog %s %s)" % (coq_list(objs), coq_list(stmts)), ixs
 
 
+def member_to_coq(m, es):
+    return "(MPlain %s)" % cs(m["attr"]) if is_plain(m) else "(MTun %s)" % decl_to_coq(m, es)
+
+
+def class_mro_to_coq(case, k):
+    """class k as the model takes it: [vars(c) for c in cls.__mro__] as the class statements leave it."""
+    es = case_eff_src(case, k)
+    ds = case["classes"][k]
+    h = case_hier(case, k)
+    sm = case_sm(case, k)
+    if h is not None:
+        bodies = hier_mro(h)
+    elif sm is not None:
+        # the class body + the <state>_duration tunables the states' __set_name__ puts on the class;
+        # StateMachine itself declares current_state; state_names / state_descriptions arrive with the
+        # first instance construction (GClassAssign)
+        bodies = [[d for d in ds if d.get("sm") in (None, "dur")], [d for d in ds if d.get("sm") == "base"]]
+    elif case["split"][k]:
+        bodies = [ds[case["split"][k]:], ds[:case["split"][k]]]
+    else:
+        bodies = [ds]
+    return coq_list([coq_list([member_to_coq(m, es) for m in body]) for body in bodies])
+
+
+SEL_COQ = {"same": "SSame", "now": "SNow", "older": "SOlder"}
+
+
+def env_case_to_coq(case, obs):
+    """a history in the environment of Model section 13: (classes, clock at the start, (gops, observations)).
+    Operations on a tunable whose class attribute was assigned after the instance was set up ("stale", see
+    annotate) are left out on both sides."""
+    if case_has_shared(case):
+        raise ValueError("shared tunable objects in a history with a changing environment: not generated")
+    info, valid = annotate(case)
+    ops, out = [], []
+
+    def construct(i):
+        k = case["insts"][i]
+        if case_sm(case, k) is not None:
+            for d in case["classes"][k]:
+                if d.get("sm") == "names":
+                    ops.append("GClassAssign %s %s" % (coq_nat(k), member_to_coq(d, 0)))
+                    out.append("ODone")
+
+    for i in range(len(case["insts"])):
+        tk = inst_tkind(case, i)
+        if tk is not None:
+            ops.append("GX (XSetTruth %s %s)" % (coq_nat(i), truth_to_coq(tk, truth_initial(tk))))
+            out.append("ODone")
+    if not case.get("lazy"):
+        for i in range(len(case["insts"])):
+            construct(i)
+    for n, (op, o) in enumerate(zip(case["ops"], obs)):
+        if op[0] == "setup":
+            ops.append("GSetupOf %s %s %s %s" % (coq_nat(op[1]), coq_nat(case["insts"][op[1]]), coq_opt(op[2], coq_string), cs(op[3])))
+        elif op[0] in ("pyw", "pyr"):
+            if info[n].get("state") == "stale" or not valid:
+                continue
+            if op[0] == "pyw":
+                ops.append("GX (XOp (PyWrite %s %s %s))" % (coq_nat(op[1]), cs(op[2]), to_coq(op[3])))
+            else:
+                ops.append("GX (XOp (PyRead %s %s))" % (coq_nat(op[1]), cs(op[2])))
+        elif op[0] == "ntw":
+            if len(op) > 4:
+                if o == ["skipped"]:
+                    continue                         # no older timestamp to use: nothing was sent
+                ops.append("GNtWriteAt %s %s %s %s" % (cs(op[1]), NTYPE_COQ[op[2]], to_coq(op[3]), SEL_COQ[op[4]]))
+            else:
+                ops.append("GX (XOp (NtWrite %s %s %s))" % (cs(op[1]), NTYPE_COQ[op[2]], to_coq(op[3])))
+        elif op[0] == "ntr":
+            ops.append("GX (XOp (NtRead %s))" % cs(op[1]))
+        elif op[0] == "truth":
+            ops.append("GX (XSetTruth %s %s)" % (coq_nat(op[1]), truth_to_coq(inst_tkind(case, op[1]), op[2])))
+        elif op[0] == "tick":
+            ops.append("GTick %s" % coq_Z(op[1]))
+        elif op[0] == "ntt":
+            ops.append("GNtStamp %s" % cs(op[1]))
+        elif op[0] == "clsset":
+            # (setattr does not call __set_name__: no hint reaches the tunable)
+            m = op[2] if is_plain(op[2]) else dict(op[2], hint=None)
+            ops.append("GClassAssign %s %s" % (coq_nat(op[1]), member_to_coq(m, 0)))
+        elif op[0] == "new":
+            if o == ["done"]:
+                construct(op[1])
+            else:
+                ops.append("GTick 0")
+                out.append(obs_to_coq(o))
+            continue
+        out.append(obs_to_coq(o))
+    classes = coq_list([class_mro_to_coq(case, k) for k in range(len(case["classes"]))])
+    return "(%s, %s, (%s, %s))" % (classes, coq_Z(CLOCK0), coq_list(ops), coq_list(out))
+
+
 def case_to_coq(case, obs):
     if case_has_shared(case):
         prog, ixs = program_to_coq(case)
@@ -1725,15 +1965,25 @@ CASES_HEADER = ("From Coq Require Import String List Bool ZArith NArith.\n"
 
 
 def cases_file(pairs):
+    """two lists per file: the histories of sections 6-12 (Model.xrun) and the histories in the environment of
+    section 13 (Model.grun); cases_index(pairs) maps the positions of the two `bad` lists back."""
     global _STRTAB
     _STRTAB = StrTab()
     try:
-        body = ";\n ".join(case_to_coq(c, o) for c, o in pairs)
+        body = ";\n ".join(case_to_coq(c, o) for c, o in pairs if not is_env(c))
+        ebody = ";\n ".join(env_case_to_coq(c, o) for c, o in pairs if is_env(c))
         defs = _STRTAB.defs()
     finally:
         _STRTAB = None
     return (CASES_HEADER + defs + "Definition cases : list (bool * (list xop * list obs)) :=\n [%s].\n"
-            "Eval vm_compute in (bad_from ghist_ok 0 cases).\n" % body)
+            "Definition ecases : list (list (list classbody) * Z * (list gop * list obs)) :=\n [%s].\n"
+            "Eval vm_compute in (bad_from ghist_ok 0 cases).\n"
+            "Eval vm_compute in (bad_from envhist_ok 0 ecases).\n" % (body, ebody))
+
+
+def cases_index(pairs):
+    """(positions in `pairs` of the plain histories, of the environment histories), in file order."""
+    return ([i for i, (c, _) in enumerate(pairs) if not is_env(c)], [i for i, (c, _) in enumerate(pairs) if is_env(c)])
 
 
 # ---------------------------------------------------------------------------
@@ -1745,6 +1995,9 @@ def oracle_case(case, obs):
     topics = {}                                     # documented key -> [type string, pv]
     bind = {}                                       # instance -> {attr: (key, ts)}
     truths = truth_states(case)
+    info, valid = annotate(case)
+    if not valid:
+        return None                                 # not a history (an instance used before it exists)
 
     def owner_state(n, i):
         return describe_truth(inst_tkind(case, i), truths[n][i])
@@ -1765,14 +2018,16 @@ def oracle_case(case, obs):
             return fail("c09-unusable", "class with unsupported tunables %s: %r" % (unsupported, o))
         if o[0] == "bad":
             return fail("c09-unusable", "implementation produced %r" % (o,))
-        if op[0] == "truth":
-            continue                                 # the owner's own state: no clause of C09 involved
+        if op[0] in ("truth", "tick", "ntt", "new", "clsset"):
+            continue                                 # the owner's own state, the clock, a timestamp, the class: no clause of C09 involved
+        if op[0] in ("pyw", "pyr") and info[n]["state"] != "live":
+            continue                                 # not bound / the class attribute was assigned after the setup: the property does not say
         if op[0] == "setup":
             if o != ["setup", True]:
                 return fail("c09-setup-raises", "setup_tunables raised %s for a class of supported tunables (%s)"
                             % (o[2:], owner_state(n, op[1])))
             b = {}
-            for d in case["classes"][case["insts"][op[1]]]:
+            for d in info[n]["decls"]:               # the tunables the class has at this moment
                 if d["attr"].startswith("_"):
                     continue
                 key = doc_key(op[2], op[3], d["subtable"], d["attr"])
@@ -1801,7 +2056,10 @@ def oracle_case(case, obs):
                                 "attribute read gives %s, the latest value written to its topic %s (from either side, "
                                 "or the default at setup) is %s; %s" % (got, e[0], json.dumps(want), owner_state(n, op[1])))
         elif op[0] == "ntw":
-            topics[op[1]] = [op[2], canon(op[3])]
+            # an update the client stamps OLDER than the value the topic holds is not the latest value
+            # (ntcore drops it); stamped "now" or "the same" it is
+            if not (len(op) > 4 and op[4] == "older"):
+                topics[op[1]] = [op[2], canon(op[3])]
         elif op[0] == "ntr":
             want = topics.get(op[1])
             if o != ["nt", want]:
@@ -1852,10 +2110,15 @@ def describe_classes(case):
         if tk is not None:
             how += {"len": ", defines __len__", "bool": ", defines __bool__", "list": ", subclass of list"}[tk]
         h = case_hier(case, k)
+        sm = case_sm(case, k)
+        if sm is not None:
+            how += ", class Cls%d(StateMachine) with states %s" % (k, ", ".join(
+                "%s%s%s" % (st["name"], " (first)" if st.get("first") else "",
+                            " timed %s" % json.dumps(st["dur"]) if st.get("dur") is not None else "") for st in sm["states"]))
         if h is not None:
             out.append("[%s] %s" % (how, describe_hier(h, "Cls%d" % k, src)))
         else:
-            out.append("[%s] %s" % (how, "; ".join(describe_decl(d, src) for d in ds)))
+            out.append("[%s] %s" % (how, "; ".join(describe_decl(d, src) for d in ds if "sm" not in d)))
     sd = shared_defs(case)
     return ("module level: %s || " % "; ".join(sd) if sd else "") + " | ".join(out)
 
@@ -1923,6 +2186,8 @@ def shrink_case(mt, case, fresh_tag, budget=220):
                 attr = ds[k]["attr"]
                 if any(op[0] in ("pyw", "pyr") and op[2] == attr and best["insts"][op[1]] == ci for op in best["ops"]):
                     continue
+                if "sm" in ds[k] or any(op[0] == "clsset" and op[1] == ci and op[2]["attr"] == attr for op in best["ops"]):
+                    continue                         # (comes with the StateMachine / is assigned later on)
                 cand = json.loads(json.dumps(best))
                 del cand["classes"][ci][k]
                 cand["split"] = [0] * len(cand["classes"])
@@ -1988,6 +2253,56 @@ def shrink_case(mt, case, fresh_tag, budget=220):
             v = failing(cand)
             if v is not None and v["fingerprint"] == fp:
                 best = cand
+    # the environment: is the paused clock needed, the clients' own timestamps, the construction order,
+    # the StateMachine base class?
+    def attempt(cand):
+        nonlocal best, budget
+        if budget <= 0:
+            return False
+        budget -= 1
+        v = failing(cand)
+        if v is not None and v["fingerprint"] == fp:
+            best = cand
+            return True
+        return False
+
+    if best.get("clock"):
+        cand = json.loads(json.dumps(best))
+        cand.pop("clock")
+        cand["ops"] = [op for op in cand["ops"] if op[0] not in ("tick", "ntt")]
+        attempt(cand)
+    for k in range(len(best["ops"])):
+        if best["ops"][k][0] == "ntw" and len(best["ops"][k]) > 4:
+            cand = json.loads(json.dumps(best))
+            cand["ops"][k] = cand["ops"][k][:4]
+            attempt(cand)
+    if best.get("lazy"):
+        cand = json.loads(json.dumps(best))
+        cand.pop("lazy")
+        cand["ops"] = [op for op in cand["ops"] if op[0] != "new"]
+        attempt(cand)
+    for ci in range(len(best["classes"])):
+        if case_sm(best, ci) is None:
+            continue
+        cand = json.loads(json.dumps(best))
+        gone = set(d["attr"] for d in cand["classes"][ci] if "sm" in d)
+        cand["sm"][ci] = None
+        cand["classes"][ci] = [d for d in cand["classes"][ci] if "sm" not in d]
+        cand["ops"] = [op for op in cand["ops"]
+                       if not (op[0] in ("pyw", "pyr") and cand["insts"][op[1]] == ci and op[2] in gone)
+                       and not (op[0] == "clsset" and op[1] == ci and op[2]["attr"] in gone)]
+        if not attempt(cand):
+            # fewer states?
+            for j in range(len(case_sm(best, ci)["states"]) - 1, 0, -1):
+                cand = json.loads(json.dumps(best))
+                st = cand["sm"][ci]["states"].pop(j)
+                own = [d for d in cand["classes"][ci] if "sm" not in d]
+                gone = set([st["name"] + "_duration"])
+                cand["classes"][ci] = sorted(own + sm_decls(cand["sm"][ci]), key=lambda d: d["attr"])
+                cand["ops"] = [op for op in cand["ops"]
+                               if not (op[0] in ("pyw", "pyr") and cand["insts"][op[1]] == ci and op[2] in gone)
+                               and not (op[0] == "clsset" and op[1] == ci and op[2]["attr"] in gone)]
+                attempt(cand)
     # the owner's truthiness: is a class with __len__ / __bool__ needed for the failure?
     for ci in range(len(best["classes"])):
         if budget <= 0 or case_tkind(best, ci) is None:
@@ -2053,13 +2368,13 @@ def shrink_case(mt, case, fresh_tag, budget=220):
                 if v is not None and v["fingerprint"] == fp:
                     best = cand
     # instances no operation mentions, classes no instance uses (renumbered)
-    used = sorted(set(op[1] for op in best["ops"] if op[0] in ("setup", "pyw", "pyr", "truth")))
+    used = sorted(set(op[1] for op in best["ops"] if op[0] in ("setup", "pyw", "pyr", "truth", "new")))
     if budget > 0 and used and len(used) < len(best["insts"]):
         cand = json.loads(json.dumps(best))
         ren = {i: n for n, i in enumerate(used)}
         cand["insts"] = [best["insts"][i] for i in used]
         for op in cand["ops"]:
-            if op[0] in ("setup", "pyw", "pyr", "truth"):
+            if op[0] in ("setup", "pyw", "pyr", "truth", "new"):
                 op[1] = ren[op[1]]
         budget -= 1
         v = failing(cand)
@@ -2069,10 +2384,14 @@ def shrink_case(mt, case, fresh_tag, budget=220):
     if budget > 0 and len(usedc) < len(best["classes"]):
         cand = json.loads(json.dumps(best))
         ren = {c: n for n, c in enumerate(usedc)}
-        for field in ("classes", "split", "src", "tkind", "hier"):
+        for field in ("classes", "split", "src", "tkind", "hier", "sm"):
             if cand.get(field) is not None:
                 cand[field] = [cand[field][c] for c in usedc]
         cand["insts"] = [ren[c] for c in best["insts"]]
+        cand["ops"] = [op for op in cand["ops"] if not (op[0] == "clsset" and op[1] not in ren)]
+        for op in cand["ops"]:
+            if op[0] == "clsset":
+                op[1] = ren[op[1]]
         budget -= 1
         v = failing(cand)
         if v is not None and v["fingerprint"] == fp:
@@ -2457,9 +2776,89 @@ def violation_of_case(mt, case, shrink=True):
     v["case"] = strip_case(c)
     v["observations"] = exec_case(mt, retag(c, fresh_tag()))
     if any(case_hier(c, k) is not None for k in range(len(c["classes"]))) or case_has_shared(c) \
-            or any(literal_is_int(d) for ds in c["classes"] for d in ds if "kind" in d):
+            or any(literal_is_int(d) for ds in c["classes"] for d in ds if "kind" in d) or is_env(c):
         v["what"] += "   [classes: %s]" % describe_classes(c)
+    if is_env(c):
+        v["what"] += "   [history: %s]" % describe_env(c)
     return v
+
+
+def describe_env(c):
+    """one line: the environment of the history and its operations."""
+    parts = ["NT clock paused, stepped by the `tick` ops (every operation in between carries the same timestamp)"
+             if c.get("clock") == "paused" else "NT clock running"]
+    if c.get("lazy"):
+        parts.append("instances constructed by the `new` ops")
+    if any(op[0] == "ntw" and len(op) > 4 for op in c["ops"]):
+        parts.append("5th field of an `ntw` op = the timestamp the client gives its update (same: that of the value the topic holds; now; older)")
+    return "; ".join(parts) + ": " + " ".join(
+        json.dumps(op if op[0] != "clsset" else ["clsset", "Cls%d.%s = %s" % (op[1], op[2]["attr"], "<plain>" if is_plain(op[2]) else
+                   "tunable(%s%s%s)" % (json.dumps(op[2]["default"]),
+                                        "" if op[2].get("wd") is None else ", writeDefault=%r" % op[2]["wd"],
+                                        "" if op[2].get("subtable") is None else ", subtable=%r" % op[2]["subtable"]))]) for op in c["ops"][:12])
+
+
+def env_counters(ctx, c):
+    """input distribution of the environment dimensions (Model section 13)."""
+    info, _ = annotate(c)
+    paused = c.get("clock") == "paused"
+    ctx.count("history=%s" % ("environment (Model.grun)" if is_env(c) else "plain (Model.xrun)"))
+    ctx.count("clock=%s" % ("paused, stepped" if paused else "running"))
+    ctx.count("construction=%s" % ("one by one (`new` ops)" if c.get("lazy") else "all up front"))
+    for k in range(len(c["classes"])):
+        if case_sm(c, k) is not None:
+            ni = sum(1 for ci in c["insts"] if ci == k)
+            ctx.count("class=StateMachine subclass, %d state(s), %d instance(s)%s" % (
+                len(case_sm(c, k)["states"]), ni, ", constructed one by one" if c.get("lazy") and ni > 1 else ""))
+    # reads that follow a client update which carries the very timestamp of the value the instance read last
+    # (a duplicate value keeps the old timestamp in ntcore: not tracked here, the counter is approximate)
+    stamp_id, nt_writes, last_read, key_of_attr = {}, {}, {}, {}
+    tick = 0
+    nsetup = collections_counter()
+    for n, op in enumerate(c["ops"]):
+        now_id = ("t", tick) if paused else ("n", n)
+        if op[0] == "tick":
+            tick += 1 if op[1] else 0
+            ctx.count("tick=%s" % ("0" if not op[1] else "1us" if op[1] == 1 else ">=5ms"))
+        elif op[0] == "ntw":
+            sel = op[4] if len(op) > 4 else None
+            ctx.count("ntw:stamp=%s" % (sel or "left to ntcore"))
+            if sel != "older":
+                if sel != "same" or op[1] not in stamp_id:
+                    stamp_id[op[1]] = now_id
+                nt_writes[op[1]] = nt_writes.get(op[1], 0) + 1
+        elif op[0] == "setup":
+            nsetup[c["insts"][op[1]]] += 1
+            key_of_attr[op[1]] = {d["attr"]: doc_key(op[2], op[3], d["subtable"], d["attr"]) for d in info[n]["decls"]}
+            for d in info[n]["decls"]:
+                if d["wd"] is not False:
+                    stamp_id[key_of_attr[op[1]][d["attr"]]] = now_id
+            if any(o2[0] == "clsset" and o2[1] == c["insts"][op[1]] for o2 in c["ops"][:n]):
+                ctx.count("setup:after a class attribute was assigned (%s setup of an instance of the class)"
+                          % ("first" if nsetup[c["insts"][op[1]]] == 1 else "a later"))
+        elif op[0] == "clsset":
+            m = op[2]
+            was = any(d["attr"] == m["attr"] for d in c["classes"][op[1]]) or any(
+                o2[0] == "clsset" and o2[1] == op[1] and o2[2]["attr"] == m["attr"] for o2 in c["ops"][:n])
+            ctx.count("clsset=%s" % ("plain value over a tunable" if is_plain(m) else "tunable replaced" if was else "tunable added"))
+        elif op[0] in ("pyr", "pyw"):
+            ctx.count("%s:%s" % (op[0], {"live": "bound tunable", "unbound": "not bound (masked)", "nodecl": "no such attribute",
+                                         "stale": "class attribute assigned after the setup (masked)"}[info[n]["state"]]))
+            if info[n]["state"] == "live":
+                key = key_of_attr.get(op[1], {}).get(op[2])
+                if op[0] == "pyr":
+                    lr = last_read.get((op[1], op[2]))
+                    if lr is not None and lr[0] == key and lr[1] == stamp_id.get(key) and nt_writes.get(key, 0) > lr[2]:
+                        ctx.count("pyr:after a client update stamped like the value this instance read last")
+                    last_read[(op[1], op[2])] = (key, stamp_id.get(key), nt_writes.get(key, 0))
+                else:
+                    stamp_id[key] = now_id
+                    last_read.pop((op[1], op[2]), None)
+
+
+def collections_counter():
+    import collections
+    return collections.Counter()
 
 
 FAMILY_FILES = ["Tunable/Model.v", "Tunable/Proofs.v", "Tunable/Compare.v"]
@@ -2505,8 +2904,16 @@ def run(ctx):
         "domain (it inherits the base's hint through typing.get_type_hints, see notes_c09.md); "
         "floats restricted to multiples of 1/64, strings to ASCII; pyntcore's StructArrayEntry.get() returns the "
         "entry default for an EMPTY stored array (observed, not /repo code): empty struct arrays are only generated as defaults")
+    ctx.assumptions.append(
+        "C09 (environment, Model section 13): ntcore's treatment of timestamps -- an update stamped older than the value a topic holds is "
+        "dropped, a duplicate keeps the old timestamp, setDefault stores timestamp 0, time=0 means now -- is ntcore behaviour recorded from "
+        "observation (validated by the correspondence under the paused HAL clock: `ntt` ops); the NT clock is the HAL clock (initialised before "
+        "the first NT value of the process), paused and stepped in 40% of the histories; client timestamps from the future (later python-side "
+        "writes are then dropped by ntcore) are not generated; an attribute of a class assigned after an instance was set up is not a bound "
+        "tunable of that instance (reads/writes of it raise KeyError on the unchanged library): masked on both sides until the instance is set up again")
     ctx.prove()
     try:
+        init_clock()
         mt = impl()
     except Exception as e:
         ctx.obligation("impl:magicbot.magic_tunable imports", False, repr(e))
@@ -2656,6 +3063,7 @@ def run(ctx):
         ctx.count("instances=%d" % len(c["insts"]))
         for i in range(len(c["insts"])):
             ctx.count("owner-class=%s" % (inst_tkind(c, i) or "ordinary"))
+        env_counters(ctx, c)
         if is_nontrivial(c, o):
             distinct.add(json.dumps([c["classes"], c["ops"]]).replace(c["tag"], ""))
     SH = 125
@@ -2665,11 +3073,12 @@ def run(ctx):
     for k, (name, _) in enumerate(items):
         rc, out = res[name]
         lists = parse_eval_lists(out) if rc == 0 else []
-        ok = rc == 0 and len(lists) == 1 and lists[0] == []
-        ctx.obligation("corr:%s (Model.xrun == implementation, every observation of every history)" % name, ok, out[-1500:])
-        if rc == 0 and lists and lists[0]:
-            hbad += [k * SH + i for i in lists[0]]
-        elif rc != 0:
+        ok = rc == 0 and len(lists) == 2 and lists[0] == [] and lists[1] == []
+        ctx.obligation("corr:%s (Model.xrun / Model.grun == implementation, every observation of every history)" % name, ok, out[-1500:])
+        if rc == 0 and len(lists) == 2 and (lists[0] or lists[1]):
+            plain_ix, env_ix = cases_index(pairs[k * SH:(k + 1) * SH])
+            hbad += sorted([k * SH + plain_ix[i] for i in lists[0]] + [k * SH + env_ix[i] for i in lists[1]])
+        elif not ok:
             hbad += list(range(k * SH, min(len(pairs), (k + 1) * SH)))
     nobs = sum(len(o) for _, o in pairs)
     ctx.coverage.update({
@@ -2687,7 +3096,14 @@ def run(ctx):
                 "resolves a name to shadows declarations of the same name in its bases (other default / writeDefault / subtable / type), plain attributes "
                 "shadow tunables and vice versa, NT reads at the keys of shadowed definitions; owner classes ordinary / with __len__ / with __bool__ / list subclass (instances created "
                 "falsy, truthiness changing inside the history); 1-3 instances under components/autonomous/robot/other prefixes, pre-published topics, "
-                "6-27 interleaved PyWrite/PyRead/NtWrite/NtRead/re-Setup/truthiness ops, closing reads; non-trivial = >=2 setups and "
+                "6-27 interleaved PyWrite/PyRead/NtWrite/NtRead/re-Setup/truthiness ops, closing reads; ENVIRONMENT (Model section 13, compared with "
+                "Model.grun): 40% of the histories run under the PAUSED HAL clock (tick ops of 0 / 1us / 5-20 ms at 10%; `ntt` ops compare the topics' "
+                "timestamps with the model's), in 50% clients stamp 60% of their updates themselves (same as the value the topic holds / now / older = stale), "
+                "in 25% one class is a magicbot StateMachine subclass (1-3 states, timed ones with float/int durations, docstrings; tunables of its own), "
+                "instances constructed one by one right before their first use in 40-70% of the histories with >= 2 instances (else all up front), in 30% "
+                "class attributes are assigned between setups at 7% of the ops (tunable replaced by one of the same topic type with another default / "
+                "writeDefault / subtable, tunable added, plain value over a tunable), 80% followed by the setup of an instance of that class; "
+                "non-trivial = >=2 setups and "
                 "all four of PyWrite, PyRead, NtWrite, NtRead occur; distinct up to the per-case name tag",
         "exhaustive": False,
         "exhaustive_parts": ["type grid: all %d points of Model.grid_decls (159 defaults x (no hint + 237 hints))%s"
@@ -2764,17 +3180,20 @@ def run(ctx):
 
 
 def replay(ctx, obj):
+    init_clock()
     mt = impl()
     kind = obj.get("kind")
     if kind == "input" and "case" in obj:
         c = refresh_case(retag(obj["case"], fresh_tag()))
         for line in shared_defs(c):
             print("%s      # ONE tunable object, bound by several classes below" % line)
+        if is_env(c):
+            print("# %s" % describe_env(c).split(": ")[0])
         for k, ds in enumerate(c["classes"]):
             es = case_eff_src(c, k)
             tk = case_tkind(c, k)
             if es:
-                text, env = class_source(ds, "Cls%d" % k, c["split"][k], es, tk, case_hier(c, k))
+                text, env = class_source(ds, "Cls%d" % k, c["split"][k], es, tk, case_hier(c, k), sm=case_sm(c, k))
                 print(text + "".join("# %s = %r\n" % kv for kv in sorted(env.items())))
             elif case_hier(c, k) is not None:
                 print("Cls%d = type(...) hierarchy%s: %s" % (k, "" if tk is None else " [%s; instances are created falsy]" % (
